@@ -154,6 +154,60 @@ func c04Sequential(w *fw.Worker, i int, r *fw.Rand) {
 			src = o.NSrc - 1
 		}
 		l := e.RandLayer(r, 30, 8)
+		if st.Verifying && r.Chance(8) {
+			// the reporter gives up while the monitor is inside Verify for its value; the monitor finishes the update
+			// anyway, and the same source's NEXT blocking report must get its own answer, not this one's
+			al := e.RandLayer(r, 50, 0)
+			abandoned, ares := e.AbandonInVerify(0, src, al)
+			var ns []any
+			for _, guess := range []int{conc.ResNil, conc.ResRejected} {
+				if !abandoned {
+					guess = ares
+				}
+				if ns = e.Model.Step(st, conc.In{Kind: conc.OpReport, Src: src, Layer: al, Blocking: true}, conc.Out{Res: guess}); len(ns) > 0 {
+					break
+				}
+			}
+			if len(ns) == 0 {
+				w.Violation(i, "blocking-report-result-disagrees-with-model", fmt.Sprintf("report of %s (abandoned in Verify: %v) returned res=%d, which the model excludes", al, abandoned, ares), trace)
+				return
+			}
+			st = ns[0].(conc.State)
+			curPtr = nil // re-read below: whether it installed is judged through the next report and the view
+			lastBySrc[src] = nil
+			trace = append(trace, fmt.Sprintf("report src=%d %s abandoned-in-verify=%v", src, al, abandoned))
+			if abandoned {
+				w.Count("reports_abandoned_inside_verify", 1)
+				sig.WriteString("a")
+			}
+			// the same source reports again right away (blocking): this answer must be this report's own
+			fl := e.RandLayer(r, 0, 0)
+			if !al.NegA && !al.NegB {
+				fl = e.RandLayer(r, 100, 0)
+			}
+			fres, ferr := e.Report(ctx, 0, src, fl, true)
+			fns := e.Model.Step(st, conc.In{Kind: conc.OpReport, Src: src, Layer: fl, Blocking: true}, conc.Out{Res: fres})
+			trace = append(trace, fmt.Sprintf("report src=%d %s (right after the abandoned one) -> res=%d err=%v", src, fl, fres, ferr))
+			if len(fns) == 0 {
+				w.Violation(i, "blocking-report-result-disagrees-with-model", fmt.Sprintf("report of %s right after an abandoned report of the same source returned res=%d (%v); the model excludes that", fl, fres, ferr), trace)
+				return
+			}
+			st = fns[0].(conc.State)
+			lastBySrc[src] = fl
+			{
+				cfg, tok := e.D.ViewVersion()
+				wantFP, _ := modelFP(e.Model, st.Cur)
+				if got := conc.FPOf(cfg); got != wantFP || conc.SerialOf(tok) != st.Serial {
+					w.Violation(i, "view-after-install-mismatch", fmt.Sprintf("after an abandoned report and %s: view %+v serial %d, model %+v serial %d", fl, got, conc.SerialOf(tok), wantFP, st.Serial), trace)
+					return
+				}
+			}
+			if !e.FenceCallbacks(ctx) {
+				w.Inconclusive(i, "callback fence failed")
+				return
+			}
+			curPtr = e.D.View()
+		}
 		before := len(e.CBLog())
 		var res int
 		var err error
